@@ -253,6 +253,9 @@ func cmdCheck(argv []string) int {
 					}
 				case "panic":
 					reproduced = c.panicked != ""
+				case "nontermination":
+					// natively the run is killed by the replay timeout inside this case
+					reproduced = strings.Contains(c.panicked, "process ended inside case") || strings.Contains(c.panicked, "test timed out")
 				case "deadlock":
 					reproduced = false
 				}
@@ -515,7 +518,7 @@ func nativeReplay(ld *Loaded, dir, pkg string, harness []string, sigs map[string
 	}
 	skip := 0
 	for skip < len(cases) {
-		run := exec.Command(bin, "-test.run", "^TestVerifReplay$", "-test.count=1", "-test.timeout=120s")
+		run := exec.Command(bin, "-test.run", "^TestVerifReplay$", "-test.count=1", "-test.timeout=20s")
 		run.Dir = ld.PkgDir
 		run.Env = append(nativeGoEnv(tmp), "VERIF_REPLAY_LIST="+listPath, "VERIF_REPLAY_SKIP="+strconv.Itoa(skip))
 		out, _ := run.CombinedOutput()
